@@ -207,3 +207,13 @@ def run(cx):
         want = sorted(['Point::Point{$self.x, $self.y, one()}',
                        'Point::Point{fp_mul($self.x, fp_sqr(fp_inv($self.z))), fp_mul(fp_mul($self.y, fp_inv($self.z)), fp_sqr(fp_inv($self.z))), one()}'])
         cx.add('I-AFFINE', fn.short, r == want, 'the pairing normalises its G1 argument with (X/Z^2, Y/Z^3, 1) / (X, Y, 1); no other exit (e(O, Q) = 1 relies on O -> (0, 0, 1))', fn.loc())
+
+
+_run_grade = run
+
+
+def run(cx):
+    from .. import rules_a as A
+    _run_grade(cx)
+    # the final exponentiation inverts and multiplies in Fp12: its formulas must be homogeneous of the right grade
+    A.a_grade(cx, 'A-GRADE', 10, levels=('Fp12',))
